@@ -325,3 +325,36 @@ func init() {
 	extend("C09", func(r *Run) { jailedCannotBeginUnstaking(r, "C09-R11") })
 	extend("C06", func(r *Run) { jailedCannotBeginUnstaking(r, "C06-R18") })
 }
+
+// firstCommitReopen: reopening before any commit info exists (C13). The version-0 branch of rootmulti.LoadVersion hands
+// every substore the zero CommitID, and iavl reads version 0 as "the latest saved version": after a crash during the
+// FIRST commit the substores that had already saved version 1 come back with the data of the unfinished block.
+// Reproduced (repro/C13_crash_during_first_commit_test.go.txt); recorded as a known finding (no small, safe repair:
+// iavl v0.12.4 offers no way to open an empty tree over existing versions except deleting them).
+func firstCommitReopen(r *Run, rule string) {
+	P := r.P
+	r.Rule(rule, "reopening shows one version across all stores also before the first commit info exists: no substore is loaded with the zero CommitID (which iavl resolves to its latest saved version) unless nothing can have been saved yet", 1)
+	f := r.fn("(*store/rootmulti.Store).LoadVersion")
+	if f == nil {
+		return
+	}
+	n := 0
+	for _, c := range CallsIn(f, "(*store/rootmulti.Store).loadCommitStoreFromParams") {
+		id := argTerm(P.callTerm(c), 2).String()
+		if id != "zero:store/types.CommitID" && id != "complit:store/types.CommitID{}" {
+			continue
+		}
+		if ok, _ := HasAtom(P.LocalGuards(c), `^\(0 == param:ver\)$`); !ok {
+			continue // the "store missing from the commit info" case is a different rule's business
+		}
+		n++
+		r.Viol(rule, "LoadVersion/version-0-loads-latest-substore-versions", P.InstrPos(c), "LoadVersion(0) loads each substore with the zero CommitID, which iavl resolves to the latest version it saved: after a crash during the first commit (some substores saved version 1, commit info not yet written) the reopened store shows a mixture of version 0 and version 1")
+	}
+	if n == 0 {
+		r.OK(rule, "LoadVersion/version-0-loads-latest-substore-versions", P.Pos(f.Pos()), "the version-0 branch no longer loads substores with the zero CommitID")
+	}
+}
+
+func init() {
+	extend("C13", func(r *Run) { firstCommitReopen(r, "C13-R10") })
+}
